@@ -130,7 +130,8 @@ class Prop:
         dec = []
         for _ in range(c.choice([0, 0, 1, 2])):
             dec.append({"id": nid("d"), "mech": c.choice(["otc", "obs"]),
-                        "trait": c.randrange(ntr), "post_init": c.random() < 0.3})
+                        "trait": c.randrange(ntr), "post_init": c.random() < 0.3,
+                        "magic": c.random() < 0.35})
         deferred_ok = c.random() < 0.5
         dyn = []
         for _ in range(c.randint(1, 5)):
@@ -244,12 +245,17 @@ class Prop:
             ns["_anytrait_changed"] = mk_any(cfg["any"]["id"], cfg["any"]["arity"], H, set(names))
         for j, d in enumerate(cfg["dec"]):
             tn = cfg["traits"][d["trait"]]["name"]
+            mname = "_dec%d" % j
+            if d.get("magic") and ("_%s_changed" % tn) not in ns:
+                # a decorated method that carries the NAME of a static handler: it is a
+                # decorated handler only (also in subclasses that inherit it)
+                mname = "_%s_changed" % tn
             if d["mech"] == "otc":
-                ns["_dec%d" % j] = on_trait_change(tn, post_init=d["post_init"])(
-                    mk_dec_otc(d["id"], H, "_dec%d" % j))
+                ns[mname] = on_trait_change(tn, post_init=d["post_init"])(
+                    mk_dec_otc(d["id"], H, mname))
             else:
-                ns["_dec%d" % j] = observe(tn, post_init=d["post_init"])(
-                    mk_dec_obs(d["id"], H, "_dec%d" % j))
+                ns[mname] = observe(tn, post_init=d["post_init"])(
+                    mk_dec_obs(d["id"], H, mname))
         cls = type(HasTraits)("SimC02", (HasTraits,), ns)
         for level in range(cfg.get("subclass") or 0):
             sub_ns = {}
